@@ -826,13 +826,119 @@ def zcash_decode_g2(z1, z2):
     return ("pt", x, y)
 
 
+def _fq2_pow(a, e, q):
+    r = (1, 0)
+    while e:
+        if e & 1:
+            r = _fq2_mul(r, a, q)
+        a = _fq2_mul(a, a, q)
+        e >>= 1
+    return r
+
+
+_Z9 = {}
+
+
+def _fq2_cuberoot(v, q):
+    """a cube root of v in F_q^2 (q^2 - 1 = 9*m, gcd(3, m) = 1) or None."""
+    n = q * q - 1
+    m = n // 9
+    if v == (0, 0):
+        return (0, 0)
+    if _fq2_pow(v, n // 3, q) != (1, 0):
+        return None
+    if q not in _Z9:
+        g = (2, 1)
+        while True:
+            z = _fq2_pow(g, m, q)
+            if _fq2_pow(z, 3, q) != (1, 0):
+                break
+            g = (g[0] + 1, g[1])
+        _Z9[q] = z
+    z = _Z9[q]
+    e = pow(3, -1, m)
+    x0 = _fq2_pow(v, e, q)
+    zz = (1, 0)
+    for _ in range(9):
+        c = _fq2_mul(x0, zz, q)
+        if _fq2_pow(c, 3, q) == v:
+            return c
+        zz = _fq2_mul(zz, z, q)
+    return None
+
+
+def _g2_special_points(q, count=3):
+    """real points of E'(F_q^2): y^2 = x^3 + 4 + 4i with y purely real, purely imaginary, and generic."""
+    pts = []
+    t = 2
+    h = (q - 1) // 2
+    kinds = {"im0": 0, "re0": 0, "im1": 0, "imhalf": 0, "imhalf1": 0, "re_half_im0": 0, "im1_rebig": 0, "rebig_im0": 0}
+    while min(kinds.values()) < count and t < 400:
+        for kind, y in (("im0", (t, 0)), ("re0", (0, t)), ("im1", (t, 1)), ("imhalf", (t, h)), ("imhalf1", (t, h + 1)),
+                        ("re_half_im0", (h - t, 0)), ("im1_rebig", (q - t, 1)), ("rebig_im0", (h + t, 0))):
+            if kinds[kind] >= count:
+                continue
+            y2 = _fq2_mul(y, y, q)
+            v = ((y2[0] - 4) % q, (y2[1] - 4) % q)
+            x = _fq2_cuberoot(v, q)
+            if x is not None:
+                pts.append((kind, x, y))
+                pts.append((kind, x, (-y[0] % q, -y[1] % q)))
+                kinds[kind] += 1
+        t += 1
+    xr = 5
+    g = 0
+    while g < count:
+        x = (xr, xr + 1)
+        x3 = _fq2_mul(_fq2_mul(x, x, q), x, q)
+        y = _fq2_sqrt(((x3[0] + 4) % q, (x3[1] + 4) % q), q)
+        if y is not None:
+            pts.append(("generic", x, y))
+            pts.append(("generic", x, (-y[0] % q, -y[1] % q)))
+            g += 1
+        xr += 1
+    return pts
+
+
+def zcash_encode_g2(P):
+    q = _Q381
+    if P is None:
+        return (2 ** 383 + 2 ** 382, 0)
+    x, y = P
+    a = (2 * y[1]) // q if y[1] > 0 else (2 * y[0]) // q
+    return (x[1] + a * 2 ** 381 + 2 ** 383, x[0])
+
+
 def replay_c11_g2(args):
+    """real G2 codec against the independent format oracle on: the solver's words (with the abstracted
+    root existence repaired by scanning nearby x), and constructed curve points whose y is purely real /
+    purely imaginary / generic (both signs)."""
     from py_ecc.bls import point_compression as pc
+    from py_ecc.optimized_bls12_381 import FQ2
     q = _Q381
     m = args.get("model") or {}
-    z1, z2 = int(m.get("z1", 0)), int(m.get("z2", 0))
     bad = []
-    pairs = [(z1, z2)]
+    pairs = []
+    if m:
+        z1, z2 = int(m.get("z1", 0)), int(m.get("z2", 0))
+        pairs.append((z1, z2))
+        fl = z1 >> 381
+        x1 = z1 % 2 ** 381
+        for d in range(1, 25):
+            pairs.append(((fl << 381) | ((x1 + d) % 2 ** 381), z2))
+            pairs.append(((fl << 381) | d, z2))
+    pts = _g2_special_points(q)
+    for kind, x, y in pts:
+        w = zcash_encode_g2((x, y))
+        pairs.append(w)
+        for flip in (381, 382):
+            pairs.append((w[0] ^ (1 << flip), w[1]))
+        try:
+            got = tuple(pc.compress_G2((FQ2(list(x)), FQ2(list(y)), FQ2([1, 0]))))
+            if got != w:
+                bad.append(("compress_G2 differs from the format (%s y)" % kind, x[0] % 1000, got[0] >> 381, w[0] >> 381))
+        except Exception as e:
+            bad.append((repr(e)[:60], kind))
     for (w1, w2) in pairs:
         exp = zcash_decode_g2(w1, w2)
         try:
